@@ -496,7 +496,7 @@ Proof.
       apply K_ret. now apply (KInv_kq s1).
   - (* CStartWait *)
     destruct inc as [e|]; [|apply Q, kq_refl].
-    destruct (handle_pending s child); [|apply Q, kq_refl].
+    destruct (handle_pending s child); [|destruct (f_st (futs s _)); apply Q, kq_refl].
     unfold new_scope. cbv zeta.
     set (s1 := scope_cancel s (k_hscope (tasks s child)) false).
     match goal with |- context [scope_enter ?a ?c t] => set (s3 := fst (scope_enter a c t)) end.
